@@ -1021,7 +1021,16 @@ pub fn c18(tier: Tier) -> i32 {
                     if !cwd.is_dir() {
                         continue;
                     }
-                    let out = if via_toml { run_bin(&bin, &cwd, &["--toml", "conf/cfg.toml"]) } else { run_bin(&bin, &cwd, &["--path", root.join("proj").to_str().unwrap()]) };
+                    // the analysed directory is named relatively to the working directory, and the reference run below uses the
+                    // same spelling in a copy of the same directory structure (a build may label files by the path it walked)
+                    let rel_proj = match cwd_rel {
+                        "" => "proj",
+                        "out" => "../proj",
+                        "proj" => ".",
+                        _ => "..",
+                    };
+                    let run_args: Vec<&str> = if via_toml { vec!["--toml", "conf/cfg.toml"] } else { vec!["--path", rel_proj] };
+                    let out = run_bin(&bin, &cwd, &run_args);
                     runs += 1;
                     let after = snapshot(&root);
                     let rep_rel = if cwd_rel.is_empty() { "solstat_report.md".to_string() } else { format!("{}/solstat_report.md", cwd_rel) };
@@ -1051,26 +1060,25 @@ pub fn c18(tier: Tier) -> i32 {
                         None => vs.push(Violation { site: "run:no-report".into(), input: hist.clone(), expected: format!("{} exists after the run", rep_rel), observed: "absent".into(), size: h.len(), unit_test: String::new(), extra: json!({}) }),
                         Some(rep) => {
                             let fresh = scratch("c18fresh");
-                            let fproj = fresh.join("proj");
-                            let fcwd = fresh.join("cwd");
-                            std::fs::create_dir_all(&fcwd).unwrap();
+                            // the whole scratch root as it was before the run, minus every solstat_report.md (left-over
+                            // or planted): same structure, same relative spelling of the analysed directory
                             for (p, b) in &before {
-                                if let Some(rel) = p.strip_prefix("proj/") {
-                                    if rel == "solstat_report.md" || rel.ends_with("/solstat_report.md") {
-                                        continue;
+                                if p == "solstat_report.md" || p.ends_with("/solstat_report.md") {
+                                    continue;
+                                }
+                                if p.ends_with('/') {
+                                    std::fs::create_dir_all(fresh.join(p)).unwrap();
+                                } else {
+                                    if let Some(par) = fresh.join(p).parent() {
+                                        std::fs::create_dir_all(par).unwrap();
                                     }
-                                    if p.ends_with('/') {
-                                        std::fs::create_dir_all(fproj.join(rel)).unwrap();
-                                    } else {
-                                        if let Some(par) = fproj.join(rel).parent() {
-                                            std::fs::create_dir_all(par).unwrap();
-                                        }
-                                        std::fs::write(fproj.join(rel), b).unwrap();
-                                    }
+                                    std::fs::write(fresh.join(p), b).unwrap();
                                 }
                             }
-                            std::fs::create_dir_all(&fproj).unwrap();
-                            let o2 = run_bin(&bin, &fcwd, &["--path", fproj.to_str().unwrap()]);
+                            let fcwd = fresh.join(cwd_rel);
+                            std::fs::create_dir_all(&fcwd).unwrap();
+                            std::fs::create_dir_all(fresh.join("proj")).unwrap();
+                            let o2 = run_bin(&bin, &fcwd, &run_args);
                             runs += 1;
                             let want = std::fs::read(fcwd.join("solstat_report.md")).ok();
                             if !completed(o2.code) || want.as_ref() != Some(rep) {
